@@ -294,6 +294,47 @@ theorem missing_information_denies (c : Cav B) (a : Access) (h : provides c a = 
     | some d => simp [hd] at h
   all_goals simp at h
 
+/-- the decision depends only on WHICH caveats and WHICH requests are present — not on order, and
+not on how often one is repeated (stronger than `validate_perm`) -/
+theorem validate_mem_ext (cs cs' : List (Cav B)) (rs rs' : List Access)
+    (hc : ∀ c, c ∈ cs ↔ c ∈ cs') (hr : ∀ r, r ∈ rs ↔ r ∈ rs') :
+    validate cs rs = [] ↔ validate cs' rs' = [] := by
+  rw [validate_iff, validate_iff]
+  constructor
+  · intro h r hrm
+    obtain ⟨hw, hcs⟩ := h r ((hr r).mpr hrm)
+    exact ⟨hw, fun c hcm => hcs c ((hc c).mpr hcm)⟩
+  · intro h r hrm
+    obtain ⟨hw, hcs⟩ := h r ((hr r).mp hrm)
+    exact ⟨hw, fun c hcm => hcs c ((hc c).mp hcm)⟩
+
+/-- "every caveat must clear": a set put together from two sets (a token's own caveats and those of
+its discharges, say) authorises exactly when both parts do -/
+theorem validate_append_caveats (cs cs' : List (Cav B)) (rs : List Access) :
+    validate (cs ++ cs') rs = [] ↔ validate cs rs = [] ∧ validate cs' rs = [] := by
+  simp only [validate_iff, List.mem_append]
+  constructor
+  · intro h
+    exact ⟨fun r hr => ⟨(h r hr).1, fun c hc => (h r hr).2 c (Or.inl hc)⟩,
+           fun r hr => ⟨(h r hr).1, fun c hc => (h r hr).2 c (Or.inr hc)⟩⟩
+  · intro ⟨h1, h2⟩ r hr
+    exact ⟨(h1 r hr).1, fun c hc => hc.elim ((h1 r hr).2 c) ((h2 r hr).2 c)⟩
+
+/-- "every request": a group of requests is authorised exactly when each part of it is -/
+theorem validate_append_requests (cs : List (Cav B)) (rs rs' : List Access) :
+    validate cs (rs ++ rs') = [] ↔ validate cs rs = [] ∧ validate cs rs' = [] := by
+  simp only [validate_iff, List.mem_append]
+  constructor
+  · intro h
+    exact ⟨fun r hr => h r (Or.inl hr), fun r hr => h r (Or.inr hr)⟩
+  · intro ⟨h1, h2⟩ r hr
+    exact hr.elim (h1 r) (h2 r)
+
+/-- adding a caveat never turns a denial into a permission -/
+theorem validate_cons_caveat_restricts (c : Cav B) (cs : List (Cav B)) (rs : List Access)
+    (h : validate (c :: cs) rs = []) : validate cs rs = [] :=
+  ((validate_append_caveats [c] cs rs).mp h).2
+
 /-- non-vacuity: a request type implementing nothing is refused by every capability-needing kind -/
 example : provides (.organization 1 31 : Cav Bytes) (Access.bare 0 0) = false := by decide
 example : prohibits (.organization 1 31 : Cav Bytes) (Access.bare 0 0) = [.invalidAccess] := by decide
@@ -314,6 +355,12 @@ example := single_prohibition_denies [(.action 1 : Cav Bytes)] [readReq, writeRe
 example := single_malformed_request_denies ([] : List (Cav Bytes)) [readReq, badReq] badReq (by simp) (by decide)
 example := (validate_perm [(.action 1 : Cav Bytes), .isUser 1] [.isUser 1, .action 1] [readReq] [readReq]
   (List.Perm.swap _ _ _) (List.Perm.refl _)).mp (by decide)
+example := (validate_mem_ext [(.action 1 : Cav Bytes), .action 1, .isUser 1] [.action 1, .isUser 1] [readReq, readReq] [readReq]
+  (by intro c; simp) (by intro r; simp)).mp (by decide)
+example := (validate_append_caveats [(.action 1 : Cav Bytes)] [.isUser 1] [readReq]).mp (by decide)
+example : validate ([(.action 1 : Cav Bytes)] ++ [.action 2]) [readReq] ≠ [] := by decide
+example := (validate_append_requests [(.action 3 : Cav Bytes)] [readReq] [writeReq]).mp (by decide)
+example := validate_cons_caveat_restricts (.action 1 : Cav Bytes) [.isUser 1] [readReq] (by decide)
 
 end Macaroon.Props.C03
 
@@ -326,3 +373,7 @@ end Macaroon.Props.C03
 #print axioms Macaroon.Props.C03.holdsUnevaluable_denies
 #print axioms Macaroon.Props.C03.holdsUnevaluableL_denies
 #print axioms Macaroon.Props.C03.nested_unevaluable_denies
+#print axioms Macaroon.Props.C03.validate_mem_ext
+#print axioms Macaroon.Props.C03.validate_append_caveats
+#print axioms Macaroon.Props.C03.validate_append_requests
+#print axioms Macaroon.Props.C03.validate_cons_caveat_restricts
